@@ -500,6 +500,7 @@ class ExecMixin:
         state.assign_from(res)
 
     def _widen_state(self, old: State, new: State) -> State:
+        self.widened = True  # ranges may have jumped to infinity: an unbounded result is then no evidence of overflow
         j = self.join(old, new)
         for k, v in j.vars.items():
             ov = old.vars.get(k)
@@ -570,8 +571,13 @@ class ExecMixin:
         elem_t = subst_val(seq.elem, {seq.kvar: ivar(lc.token)})
         lo, hi = seq.length.lo, seq.length.hi
 
+        struct_prov = frozenset(f[5:] for f in seq.flags if isinstance(f, str) and f.startswith("PROV:"))
+        pc_before = state.pc
+
         def one_iteration(start: State, elem: Val) -> State:
             it = start.copy()
+            if struct_prov:
+                it.pc = it.pc | struct_prov  # whether (and how often) the body runs depends on the keys of the iterated dictionary
             self.loops.append(lc)
             self.ctl.append(lc)
             try:
@@ -605,7 +611,8 @@ class ExecMixin:
                 # cannot end normally any more
                 never_completes = True
                 break
-            if hi == INF and k >= WIDEN_AFTER:
+            if (hi == INF and k >= WIDEN_AFTER) or (hi > ITER_CAP - 6 and k >= ITER_CAP - 12):
+                # unbounded loops, and bounded ones longer than the iteration cap, are closed by widening
                 out = self._widen_state(cur, out)
             if out.same(cur):
                 exits.append(out)
@@ -646,6 +653,8 @@ class ExecMixin:
                 for key, v in list(res.vars.items()):
                     if key[0] == fid and isinstance(v, Num) and v.sym is None and v.const is None:
                         res.vars[key] = replace(v, sym=("opq", frame.label, key[1], toks, self.site_id("opq-loop-exit", node)))
+        if struct_prov and not res.bottom:
+            res.pc = pc_before
         state.assign_from(res)
 
     def exec_Break(self, st, state):
